@@ -5,7 +5,7 @@ META = {
     "title": "Every reported observable equals its definition on the current state",
     "technique": "static analysis: provenance of the (state, Hamiltonian, time, results) handed to callbacks on "
                  "every path of both drivers, event order in the noisy driver, expression-shape checks of the "
-                 "built-in implementations; dispatch table of observable class → implementation; QR gauge-move idiom table; polynomial normal form of the normalised state",
+                 "built-in implementations; dispatch table of observable class → implementation; QR gauge-move idiom table; polynomial normal form of the normalised state; exponent arithmetic of view-axis selections (polynomial identities in the loop variables); post-state heap of _evolve_step on every path",
     "design_ref": "DESIGN.md §5 C13",
     "explanation": "OBSDEF-axis: the emu-sv occupation and correlation routines (state vector and density matrix) select level 1 of exactly the qubit(s) each entry is stored under - the exponents in front of the selected view axis sum to i, resp. j-1 after qubit i was removed, as polynomial identities in the loop variables - over every qubit and every pair i<j, mirrored; sum of diagonal entries for rho, squared norm for psi. ROLE-sv: on every path of emu-sv's _evolve_step, (state.data, _current_H) are the two components of this step's stepper.apply(...), and _apply_observables rebuilds a generator only when none is stored (before the first step). ROLE-callback/ONCE: in both drivers every callback receives the run's config, the filter's "
                    "time, the current state (emu-mps: 1/‖ψ‖·ψ on the plain and on the dark-atom branch) and the "
